@@ -276,10 +276,16 @@ def c12(run, ck):
                 assumptions=["the default stack sizes of this machine (8 MB main thread, 2 MB spawned thread)"])
 
 
+# verdicts of Trace_Parse about positions (C18); the others are about what is accepted and which tree comes out (C02)
+SPAN_CODES = {"error-location-outside-source", "token-span-outside-source", "token-span-empty-or-reversed", "token-spans-overlap",
+              "token-does-not-relex", "tree-spans", "spanned-text-is-not-the-subtree"}
+
+
 def parse_stage(run, ck, n_quick, n_thorough):
     out = os.path.join(run.work, "parse.ndjson")
     run.drive("parse", n_thorough if run.thorough else n_quick, out)
     verdicts, recs = run.validate(out, "Trace_Parse", cfg="Trace_Parse.cfg", parts=8, label="parse")
+    verdicts = [v for v in verdicts if (v[2] in SPAN_CODES) == (run.prop == "C18")]
     simple_violations(run, ck, verdicts, recs, "parse", describe=lambda rec, v: parse_shape(rec))
 
 
@@ -307,7 +313,7 @@ def c18(run, ck):
     out = os.path.join(run.work, "fuzz.ndjson")
     run.drive("fuzz", 40000 if run.thorough else 2500, out)
     verdicts, recs = run.validate(out, "Trace_Parse", cfg="Trace_Parse.cfg", parts=8, label="fuzz")
-    verdicts = [v for v in verdicts if "location" in v[2] or "span" in v[2]]
+    verdicts = [v for v in verdicts if v[2] in SPAN_CODES]
     simple_violations(run, ck, verdicts, recs, "fuzz", describe=lambda rec, v: parse_shape(rec))
     return dict(rule="generated expressions rendered with random spaces, tabs, newlines and multi-byte text: token spans increasing / inside the source / re-lexing to the same token; every node span equals the span the grammar assigns "
                      "(first token start to last token end); sampled sub-expressions compiled on their own give the same subtree; corrupted variants: error locations inside the source",
